@@ -21,7 +21,7 @@ def _t_dot(c):
         else:
             b = b[:-2] + (a[-1],) + b[-1:]
     form = c.int(0, 1)
-    fn = (lambda ns, x, y: ns.dot(x, y)) if form == 0 or not a else (lambda ns, x, y: x.dot(y) if hasattr(x, "dot") else ns.dot(x, y))
+    fn = (lambda ns, x, y: ns.dot(x, y)) if form == 0 or not a else (lambda ns, x, y: ns.dot(x, y) if isinstance(x, (onp.ndarray, float, onp.floating)) else x.dot(y))
     return Call("c:dot", fn, [a, b], desc=["dot", list(a), list(b), form], feats=_cf("dot", a, b))
 
 
